@@ -233,6 +233,8 @@ def run_singular(key):
     pattern, which, D, fn, mu, seed = (key[k] for k in ('pattern', 'which', 'D', 'fn', 'mu', 'seed'))
     F = len(pattern)
     Pxx, Pnn = psds(seed, (), F, D, 'sing')
+    if key['real_noise']:
+        Pnn = np.ascontiguousarray(Pnn.real)     # real-valued (symmetric PD) noise PSD, complex target
     X, N = Pxx.copy(), Pnn.copy()
     for f, p in enumerate(pattern):
         for M_, on in ((N, which in ('noise', 'both')), (X, which in ('target', 'both'))):
@@ -240,7 +242,7 @@ def run_singular(key):
                 continue
             if p == 1:   # rank deficient
                 v = A.cnormal(A.rng(seed, 'c13sing', f, D), (D,))
-                M_[f] = np.outer(v, v.conj())
+                M_[f] = np.outer(v, v.conj()) if np.iscomplexobj(M_) else np.outer(v.real, v.real)
             elif p == 2:
                 M_[f] = 0
     X.setflags(write=False)
@@ -317,8 +319,12 @@ def subchecks(tier, seed):
                     for fn, mus in (('souden', (None,)), ('wmwf', (1.0, 0.5, 0.0))):
                         for mu in mus:
                             rd = bool(1 in pattern and which in ('noise', 'both'))
-                            yield (pattern, which, D, fn, mu, rd, seed)
-    subs.append(Sub('singular_bins', ('pattern', 'which', 'D', 'fn', 'mu', 'rank_deficient_noise', 'seed'),
+                            for real_noise in (False, True):
+                                if real_noise and (D == 3 or mu == 0.5):
+                                    continue
+                                yield (pattern, which, D, fn, mu, rd, real_noise, seed)
+    subs.append(Sub('singular_bins',
+                    ('pattern', 'which', 'D', 'fn', 'mu', 'rank_deficient_noise', 'real_noise', 'seed'),
                     sing_cases, run_singular,
                     bound=dict(patterns='all {regular, rank-1, zero}^4')))
     return subs
